@@ -237,6 +237,13 @@ func (w *W) strConcat(a, b Str) Str {
 		return a
 	}
 	w.allocEvent("string concatenation")
+	// a symbolic length is made concrete by forking over its possible values
+	if !a.Len.IsConst() {
+		a.Len = w.ts.Int64(w.concretizeInt(a.Len, 0, int64(w.maxLen(a)), "length of a concatenation operand"))
+	}
+	if !b.Len.IsConst() {
+		b.Len = w.ts.Int64(w.concretizeInt(b.Len, 0, int64(w.maxLen(b)), "length of a concatenation operand"))
+	}
 	return w.strFromBytes(append(w.strBytes(a, "concatenation"), w.strBytes(b, "concatenation")...))
 }
 
